@@ -15,9 +15,9 @@ def H(name, unit, serves, strength="F", tier="quick", crate="core", fns=(), time
                 fns=list(fns), timeout=timeout, cost=cost, args=list(args), note=note)
 
 
-def VU(name, serves, fns, tier="quick", timeout=300, note=""):
+def VU(name, serves, fns, tier="quick", timeout=300, note="", args=()):
     return dict(engine=V, name=name, unit=name, serves=list(serves), strength="U", tier=tier, fns=list(fns),
-                timeout=timeout, note=note)
+                timeout=timeout, note=note, args=list(args))
 
 
 HARNESSES = [
@@ -122,7 +122,7 @@ HARNESSES = [
 ]
 
 VERUS_UNITS = [
-    VU("V-transfer", ["C03", "C05", "C07", "C08"], ["transfer"]),
+    VU("V-transfer", ["C03", "C05", "C07", "C08"], ["transfer"], args=["--rlimit", "300"], timeout=600),
     VU("V-outbuf", ["C05", "C08"], ["OutputBuffer::from_slice_pos_and_max", "OutputBuffer::bytes_left", "OutputBuffer::write_byte"]),
     VU("V-def-bits", ["C02", "C10", "C12"], ["OutputBufferOxide::put_bits", "OutputBufferOxide::pad_to_bytes"]),
     VU("V-inf-leaf", ["C04", "C06", "C07", "C19"], ["undo_bytes", "num_extra_bits_for_distance_code"]),
